@@ -81,7 +81,9 @@ pub fn registry() -> Vec<H> {
     v.extend(slice::harnesses());
     v.extend(regions::harnesses());
     v.extend(life::harnesses());
+    v.extend(life::harnesses_long());
     v.extend(more::harnesses());
+    v.extend(more::harnesses_long());
     v.extend(codecs::harnesses());
     v
 }
